@@ -122,7 +122,7 @@ def run(chk, S: Session):
                     trs = mcalls(res, "transition")
                     dts = sorted(nf.show(nf.norm(tr.kwargs.get("dt"))) for tr in trs)
                     want = sorted([nf.show(nf.add(nf.norm(t_chk), nf.norm(s_), -1)), nf.show(nf.add(nf.norm(T_), nf.norm(t_chk), -1))])
-                    r2.require(dts == want or (strategy == "strategy_filter" and set(dts) <= set(want) and want[0] in dts or want[1] in dts), f"{name} transitions", f"dt in {want}", f"transition steps {dts}; expected {want}", where, {**cfg, "arm": arm})
+                    r2.require(dts == want or (strategy == "strategy_filter" and set(dts) <= set(want) and (want[0] in dts or want[1] in dts)), f"{name} transitions", f"dt in {want}", f"transition steps {dts}; expected {want}", where, {**cfg, "arm": arm})
                     r2.require(all(tr.kwargs.get("output_scale") is sfrom.fields["output_scale"] for tr in trs) and all(tr.args[0] is ifrom.fields["prior"] for tr in trs), f"{name} output scale", "output scale of the right end (domain (t0, t1])",
                                f"{[T.show(tr.kwargs.get('output_scale')) for tr in trs]}", where, {**cfg, "arm": arm})
                     for f in ("output_scale", "auxiliary", "num_steps", "fun_evals", "prior"):
@@ -185,10 +185,19 @@ def terminal_rules(chk, S, r3):
         for k in ("atol", "rtol", "dt0", "eps", "damp"):
             r3.require(c[1].get(k) is kw[k], f"solve_adaptive_terminal_values forwards {k}", "", f"{k} = {T.show(c[1].get(k))}", ADAPT)
     okl = isinstance(out, T.Term) and out.op == "tree.tree_map" and out.args[1] is A("solution") and isinstance(out.args[0], T.Term) and out.args[0].op == "lam" and isinstance(out.args[0].args[1], T.Term) and out.args[0].args[1].op == "getitem" and out.args[0].args[1].args[1] == -1
-    r3.require(okl, "solve_adaptive_terminal_values result", "last entry of every leaf", f"{T.show(out, 4)}", ADAPT)
-    S.absorb(it)
+    # The blanket form `tree_map(lambda s: s[-1], solution)` is what the pinned tree does; it is NOT required (it is wrong for leaves without a
+    # checkpoint axis, see terminal_axis_rules).  Any other way of taking the terminal entry is not decided here: inconclusive, never a violation.
     if okl:
+        r3.ok("solve_adaptive_terminal_values result", "the last entry of every leaf of the checkpointed solution (decided per leaf below)", ADAPT)
         terminal_axis_rules(chk, S, r3)
+    else:
+        blanket = isinstance(out, T.Term) and out.op == "tree.tree_map" and out.args[1] is A("solution") and isinstance(out.args[0], T.Term) and out.args[0].op == "lam" \
+            and isinstance(out.args[0].args[1], T.Term) and out.args[0].args[1].op == "getitem" and isinstance(out.args[0].args[1].args[1], int)
+        if blanket:
+            r3.fail("solve_adaptive_terminal_values result", f"entry {out.args[0].args[1].args[1]} of every leaf is returned; the terminal value is the last one", ADAPT)
+        else:
+            r3.unknown("solve_adaptive_terminal_values result", f"the terminal entry is taken in a form this rule does not analyse: {T.show(out, 4)}", ADAPT)
+    S.absorb(it)
 
 
 def _has_checkpoint_axis(t):
